@@ -23,9 +23,9 @@ def stTok (p : String) (st : St) : String := s!"{p}{st.code}:{clsName st.cls}"
 /-- compression table from the case: (raw or `none` when the reference decompressor fails, compressed) -/
 abbrev ZTab := List (Option Bytes × Bytes)
 
-def tableCodec (tab : ZTab) : Codec Bytes where
+def tableCodec (tab : ZTab) (prost : Bool := false) : Codec Bytes where
   ser := id
-  de := fun b => if b.head? = some 255 then none else some b
+  de := fun b => if !prost && b.head? = some 255 then none else some b
   deErr := 13
   cz := fun _ raw => match tab.find? (fun e => e.1 == some raw) with
     | some e => e.2
@@ -47,6 +47,7 @@ def unhexBare (s : String) : Option Bytes := Hex.decodeChars s.toList
 def hexBare (b : Bytes) : String := String.ofList (Hex.encodeChars b)
 
 structure EncCase where
+  prost : Bool := false
   cfg : EncCfg
   comp : Option Enc      -- configured, before the override
   npolls : Nat
@@ -61,7 +62,8 @@ def parseSrcEv (s : String) : Option (SrcEv Bytes) :=
   | _ => none
 
 def parseEncCase : List String → Option EncCase
-  | "enc" :: role :: comp :: ovr :: y :: _buf :: mx :: np :: "Z" :: k :: rest =>
+  | kind :: role :: comp :: ovr :: y :: _buf :: mx :: np :: "Z" :: k :: rest =>
+    if kind ≠ "enc" ∧ kind ≠ "penc" then none else
     match nat? y, optNat? mx, nat? np, nat? k with
     | some y, some mx, some np, some k =>
       match parseZ k rest with
@@ -69,7 +71,8 @@ def parseEncCase : List String → Option EncCase
         match evs.mapM parseSrcEv with
         | some evs =>
           let c := encOf comp
-          some { cfg := { comp := if ovr = "d" ∧ role = "s" then none else c, yieldThr := y, maxSize := mx, server := role = "s" },
+          some { prost := kind = "penc",
+                 cfg := { comp := if ovr = "d" ∧ role = "s" then none else c, yieldThr := y, maxSize := mx, server := role = "s" },
                  comp := c, npolls := np, tab := tab, evs := evs }
         | none => none
       | _ => none
@@ -84,9 +87,10 @@ def frameTok : FrameOut → String
   | .none => "n"
 
 def runEnc (c : EncCase) : String :=
-  String.intercalate " " ((Enc.run (tableCodec c.tab) c.cfg c.npolls Enc.init c.evs).map frameTok)
+  String.intercalate " " ((Enc.run (tableCodec c.tab c.prost) c.cfg c.npolls Enc.init c.evs).map frameTok)
 
 structure DecCase where
+  prost : Bool := false
   cfg : DecCfg
   npolls : Nat
   tab : ZTab
@@ -108,7 +112,8 @@ def parseDir (s : String) : Option Dir :=
   else none
 
 def parseDecCase : List String → Option DecCase
-  | "dec" :: dir :: enc :: mx :: _buf :: np :: "Z" :: k :: rest =>
+  | kind :: dir :: enc :: mx :: _buf :: np :: "Z" :: k :: rest =>
+    if kind ≠ "dec" ∧ kind ≠ "pdec" then none else
     match parseDir dir, optNat? mx, nat? np, nat? k with
     | some dir, some mx, some np, some k =>
       match parseZ k rest with
@@ -117,7 +122,7 @@ def parseDecCase : List String → Option DecCase
         | some evs =>
           -- `Streaming::new_empty` passes no encoding and no limit
           let (e, m) := match dir with | .empty => (none, none) | _ => (encOf enc, mx)
-          some { cfg := { enc := e, maxSize := m, dir := dir }, npolls := np, tab := tab, evs := evs }
+          some { prost := kind = "pdec", cfg := { enc := e, maxSize := m, dir := dir }, npolls := np, tab := tab, evs := evs }
         | none => none
       | _ => none
     | _, _, _, _ => none
@@ -130,12 +135,14 @@ def itemTok : Item Bytes → String
   | .pending => "p"
 
 def runDec (c : DecCase) : String :=
-  String.intercalate " " ((Dec.run (tableCodec c.tab) c.cfg c.npolls Dec.init c.evs).map itemTok)
+  String.intercalate " " ((Dec.run (tableCodec c.tab c.prost) c.cfg c.npolls Dec.init c.evs).map itemTok)
 
 def model (case : List String) : Option String :=
   match case with
   | "enc" :: _ => (parseEncCase case).map runEnc
+  | "penc" :: _ => (parseEncCase case).map runEnc
   | "dec" :: _ => (parseDecCase case).map runDec
+  | "pdec" :: _ => (parseDecCase case).map runDec
   | _ => none
 
 /-! ### spec-side helpers (use `Spec.Framing` only, never the model) -/
